@@ -21,7 +21,7 @@ TOK = {
     "double": ["%2541", "%2520", "%252F", "%2525", "%25zz"],
     "malformed": ["%", "%4", "%zz", "%%41", "%4G", "%%", "%g1", "%٣٤", "%4１", "%4%31", "%2%46", "%%34%31", "%c%33"],
     "nonutf8": ["%E9", "%C3", "%FF", "%C3%28", "%e9", "%80", "%ED%A0%80", "%C0%AF", "%E2%82", "%F0%9F%98", "%e2%82%28"],
-    "control": ["%00", "%0A", "%1F", "%7F", "%C2%80", "%C2%9F", "%09", "%0d", "%c2%85"],
+    "control": ["%00", "%0A", "%1F", "%7F", "%C2%80", "%C2%9F", "%09", "%0d", "%c2%85", "%c2%9b", "%c2%80", "%1E", "%1f"],
     "plus": ["+"],
     # escapes of characters that NFKC normalization turns into a delimiter (fullwidth @ : / ? #, the a/c sign): urlsplit rejects them raw in a netloc
     "esc_nfkc_delim": ["%EF%BC%A0", "%EF%BC%9A", "%EF%BC%8F", "%EF%BC%9F", "%EF%BC%83", "%E2%84%80", "%ef%bc%a0"],
